@@ -58,6 +58,19 @@ type ProxyCase struct {
 	// without that shard: whatever StartAsyncSearch answers, a finished result holds every
 	// matching document.
 	RefuseStart uint32 `json:"refuse_start,omitempty"`
+	// ViaHandler: the search is started through the proxy's gRPC StartAsyncSearch handler
+	// (proxyapi/grpc_async_search.go), which converts the request, instead of the ingestor below it
+	ViaHandler bool `json:"via_handler,omitempty"`
+	// Future: that many more documents (built at run time) carry a time 1..3 hours ahead of the
+	// wall clock - legal for a store, whose clock the proxy's need not match - and the request
+	// range reaches to 2039.  They exist when the search is started: they belong to its result.
+	Future int `json:"future,omitempty"`
+}
+
+var protoAggFunc = map[string]seqproxyapi.AggFunc{
+	"count": seqproxyapi.AggFunc_AGG_FUNC_COUNT, "sum": seqproxyapi.AggFunc_AGG_FUNC_SUM, "min": seqproxyapi.AggFunc_AGG_FUNC_MIN,
+	"max": seqproxyapi.AggFunc_AGG_FUNC_MAX, "avg": seqproxyapi.AggFunc_AGG_FUNC_AVG, "quantile": seqproxyapi.AggFunc_AGG_FUNC_QUANTILE,
+	"unique": seqproxyapi.AggFunc_AGG_FUNC_UNIQUE,
 }
 
 func genProxy(t *rapid.T) ProxyCase {
@@ -100,6 +113,14 @@ func genProxy(t *rapid.T) ProxyCase {
 	}
 	c.PageOffset = rapid.IntRange(0, len(c.Corpus)+1).Draw(t, "pageoffset")
 	c.PageSize = rapid.IntRange(0, len(c.Corpus)+1).Draw(t, "pagesize")
+	if rapid.IntRange(0, 3).Draw(t, "hugepage") == 3 {
+		// a client that wants "everything from the offset on"
+		c.PageSize = rapid.SampledFrom([]int{math.MaxInt32, math.MaxInt32 - 1, 1 << 30, math.MaxInt32 - len(c.Corpus)}).Draw(t, "hugesize")
+	}
+	c.ViaHandler = !c.NaNQuantile && rapid.IntRange(0, 2).Draw(t, "viahandler") == 2
+	if !c.NaNQuantile && !c.BadUTF8 && rapid.IntRange(0, 4).Draw(t, "future") == 4 {
+		c.Future = rapid.IntRange(1, 4).Draw(t, "nfuture")
+	}
 	return c
 }
 
@@ -117,6 +138,18 @@ func runProxy(c ProxyCase) (evid.Result, error) {
 		c.R.Q, c.R.From, c.R.To = model.All(), 0, 1<<41
 		c.Aggs = []model.AggSpec{{Func: "count", GroupBy: "svc"}}
 		res.Labels = append(res.Labels, "group-values-with-invalid-utf8")
+	}
+	if c.Future > 0 {
+		c.Corpus = append(model.Corpus{}, c.Corpus...)
+		now := uint64(time.Now().UnixMilli())
+		for i := 0; i < c.Future; i++ {
+			c.Corpus = append(c.Corpus, model.Doc{ID: model.ID{MID: now + 3_600_000*uint64(1+i%3) + uint64(i), RID: 1<<58 + uint64(i)}, Body: []byte(fmt.Sprintf(`{"f":%d}`, i)),
+				Toks: []model.Tok{{F: "_all_", V: ""}, {F: "_exists_", V: "svc"}, {F: "svc", V: "a"}}})
+			c.ShardOf = append(append([]int{}, c.ShardOf...), i%c.Shards)
+			c.FracOf = append(append([]int{}, c.FracOf...), i%2)
+		}
+		c.R.From, c.R.To = 0, 1<<41
+		res.Labels = append(res.Labels, "documents-stamped-ahead-of-the-clock")
 	}
 	reps := max(1, c.Replicas)
 	cl, err := harness.NewCluster(evid.ScratchDir("c19p"), c.Shards, reps, harness.StoreOpts{}, nil, true)
@@ -186,7 +219,36 @@ func runProxy(c ProxyCase) (evid.Result, error) {
 			}
 		}
 	}
-	start, err := cl.Ing.StartAsyncSearch(ctx, ar)
+	var start search.AsyncResponse
+	if c.ViaHandler {
+		api := proxyapi.VerifNewGrpcV1(proxyapi.APIConfig{SearchTimeout: time.Minute, ExportTimeout: time.Minute}, cl.Ing, nil, nil)
+		req := &seqproxyapi.StartAsyncSearchRequest{
+			Query: &seqproxyapi.SearchQuery{Query: text, From: timestamppb.New(time.UnixMilli(int64(min(c.R.From, 1<<41)))), To: timestamppb.New(time.UnixMilli(int64(min(c.R.To, 1<<41))))},
+			Order: seqproxyapi.Order_ORDER_DESC,
+		}
+		if c.R.Asc {
+			req.Order = seqproxyapi.Order_ORDER_ASC
+		}
+		if c.R.Interval > 0 {
+			req.Hist = &seqproxyapi.HistQuery{Interval: fmt.Sprintf("%dms", c.R.Interval)}
+		}
+		for _, a := range c.Aggs {
+			q := &seqproxyapi.AggQuery{Field: a.Field, GroupBy: a.GroupBy, Func: protoAggFunc[a.Func], Quantiles: a.Quantiles}
+			if a.Interval > 0 {
+				iv := fmt.Sprintf("%dms", a.Interval)
+				q.Interval = &iv
+			}
+			req.Aggs = append(req.Aggs, q)
+		}
+		var hr *seqproxyapi.StartAsyncSearchResponse
+		hr, err = api.StartAsyncSearch(ctx, req)
+		if err == nil {
+			start.ID = hr.SearchId
+		}
+		res.Labels = append(res.Labels, "started-through-the-grpc-handler")
+	} else {
+		start, err = cl.Ing.StartAsyncSearch(ctx, ar)
+	}
 	for s := range cl.Clients {
 		for r := range cl.Clients[s] {
 			cl.Clients[s][r].RefuseStart = nil
